@@ -505,8 +505,13 @@ func (e *Enc) resolveName(sc *Scope, name string) (Val, bool) {
 		}
 	}
 	for i, fv := range fn.FreeVars {
-		if fv.Name() == name && i < len(fr.bind) {
-			v := fr.bind[i]
+		if fv.Name() == name && (i < len(fr.bind) || fr.lazy) {
+			var v Val
+			if i < len(fr.bind) {
+				v = fr.bind[i]
+			} else {
+				v = e.get(fr, fv)
+			}
 			if pt, ok := fv.Type().Underlying().(*types.Pointer); ok {
 				return e.loadAt(sc.st, v, pt.Elem()), true
 			}
